@@ -31,6 +31,8 @@ def run(ctx):
     _twomark.run(ctx, 'C05', ctx.rng, ctx.n(60, 700), ['per', 'uper'])
     # same-named bounds / types imported from different modules: the bits are those of the type written in place
     _samename.run(ctx, 'C05', ctx.rng, ctx.n(4, 40), codecs=['per', 'uper'])
+    from .. import scripted as _scripted
+    _scripted.set_as_sequence(ctx, ctx.rng, ctx.n(8, 80), ['per', 'uper'])
 
 
 def replay(ctx, path):
